@@ -170,6 +170,65 @@ CLAIMED = {
         note="NaN, complex and bool inputs lie outside the ordered domain, are probed directly and give the known "
              "finding F15. Float sqrt/exp enter as a per-case table of exact values.",
         ref="§5 C10"),
+    "C12": dict(
+        text="Proved for all instruction lists: the adjacency swaps conjugate the two qubits next to each other in the "
+             "stated order and are undone afterwards; safety of the repaired post-selection analyser (under the final "
+             "rules every qubit holds one photon after every instruction); F2 counterexample for the pinned rule; "
+             "refusal characterisation (convert returns ok only for supported, placeable instructions). The "
+             "amplitude-level clause is stated, kernel-decided on two circuits, and evaluated on the implementation "
+             "against qiskit.quantum_info.Operator on every generated circuit (common scalar, residual <= 1e-9).",
+        technique="Lean 4 proof of the converter's decision logic (adjacency swaps, post-selection analysis safety by "
+                  "per-qubit photon bookkeeping, refusal paths) + amplitude oracle vs qiskit Operator",
+        note="PARTIAL: convert_correct for arbitrary lists needs Fock multiplicativity bridged to the gate model "
+             "(stated as convert_correct_statement); qiskit's Operator is the reference semantics of the named gates.",
+        ref="§5 C12"),
+    "C13": dict(
+        text="Lean theorems: for any field and any constants satisfying the defining equations (shown for the complex "
+             "numbers sqrt2, 3^(-1/2), 2^(-1/4), sqrt(3/sqrt2-2), sqrt7, i, e^{i pi/4}), each multi-qubit gate built "
+             "through the model of Circuit.add/herald has heralded amplitudes = scalar x named matrix on the dual-rail "
+             "basis (scalar^2 1/9, 1/16, 1/72) and heralded gates have no accepted leakage; single-qubit gates for every "
+             "rotation parameter with scalar exactly 1. The tables are decided by the kernel (decide +kernel, no "
+             "native_decide) over exact Z[1/6] quadratic-extension towers and lifted to any field by evaluation maps. "
+             "The driver evaluates the same tower objects and is compared with U_full and Simulator amplitudes each run.",
+        technique="kernel-decided amplitude tables of the Circ-built gates over exact quadratic-extension towers, "
+                  "lifted to any field by evaluation homomorphisms + correspondence check",
+        note="SWAP for all mode pairs is stated (SWAP_statement) and proved on three layouts only (SWAP_partial); "
+             "checked on random mode pairs on the implementation.",
+        ref="§5 C13"),
+    "C14": dict(
+        text="Proved for every n, every unitary and every herald dictionary: the model of Reck.map, run through the "
+             "Circuit API model, is accepted, keeps the heralds and reproduces U exactly (unit-cell identity, nulling "
+             "invariant, triangular unitary is diagonal, telescoping) - also over the complex numbers with "
+             "arctan/cos/sin/exp/arg written as in the code, so no trigonometric assumption is left; for every valid "
+             "error model the result is the Reck mesh with unitary U_full, drawn values and programmed phases lie in "
+             "their bounds and are fixed by the seed. Tied to the code by a differential check on exact GQ[sqrt2] inputs "
+             "and by replaying numpy's streams as tapes.",
+        technique="Lean 4 proof (2x2 block homomorphism for the unit cell, nulling invariant, triangular-unitary lemma, "
+                  "tape model of the error model) + correspondence check",
+        note="PARTIAL: IEEE rounding of `%`, trig and the 1e-20/1e-10 thresholds is outside the proof (this is where "
+             "F16 lived); caught by the oracle on the implementation.",
+        ref="§5 C14"),
+    "C15": dict(
+        text="Lean theorems that StateTomography.process on noiseless outcome tables returns exactly rho0/tr rho0 "
+             "(pure: |psi><psi|, Hermitian, unit trace, fidelity 1 under the sqrtm contract) for all n, all states, all "
+             "callback/dict orders; the requested settings are exactly {X,Y,Z}^n. The circuits clause is proved for "
+             "ancilla-free bases and checked on the implementation for heralded ones. The correspondence check runs "
+             "the real class on generated 1-3-qubit base circuits (incl. heralded/post-selected gates and heralds "
+             "declared directly on the base) with exact frequencies and compares with the exact model over Q(i,sqrt2).",
+        technique="Lean 4 proof (single-qubit Pauli identities + Kronecker induction) over an executable model + "
+                  "differential check with noiseless callbacks",
+        note="scipy.linalg.sqrtm is trusted (contract: fidelity of equal pure states is 1); transient LinAlgErrors of "
+             "sqrtm under load are retried and reported only when they reproduce.",
+        ref="§5 C15"),
+    "C16": dict(
+        text="Proved: reference Choi = channel matrix, LI transform invertible (closed-form left inverse) and LI returns "
+             "choi_from_unitary(V) exactly for every n and V; gate fidelity equals (|tr U^dag V|^2+d)/(d(d+1)) and is 1 "
+             "for U = V; MLE rows reproduce the data probabilities (row level). The optimiser is run on the "
+             "implementation and checked against the 0.99 / CPTP bound on every case.",
+        technique="Lean 4 proof (dual bases, Pauli twirl) over an executable model; MLE optimiser validated numerically",
+        note="PARTIAL: convergence of the projected-gradient loop, numpy pinv/eigh/solve and sqrtm are outside the "
+             "proof; mle_model_consistent is proved at row level (list-level packaging kept as a statement).",
+        ref="§5 C16"),
 }
 
 PENDING_REASON = "check not built yet in this session (planned, see DESIGN.md §5 and §11); not claimed until its machinery exists"
